@@ -109,6 +109,9 @@ fn block_current_and_switch(id: u32) {
 
 fn unblock(task: TaskId) {
     ExecutionState::with(|s| {
+        if s.in_cleanup() {
+            return;
+        }
         let t = s.get_mut(task);
         if !t.finished() {
             t.unblock();
@@ -527,6 +530,9 @@ pub mod thread {
             }
             fine_point(pt::UNPARK);
             ExecutionState::with(|s| {
+                if s.in_cleanup() {
+                    return;
+                }
                 let t = s.get_mut(task);
                 if !t.finished() {
                     t.unpark();
